@@ -291,7 +291,8 @@ def handleCanon (op : String) (req : Json) : Option Json :=
 partial def shapeJ : MC.Xml.Node → Json
   | .text t => toJson (ofCps t)
   | .elem n attrs kids =>
-    Json.mkObj [("n", toJson (ofCps n)), ("i", toJson (MC.Clean.hasIntent attrs)), ("c", Json.arr (kids.map shapeJ).toArray)]
+    Json.mkObj [("n", toJson (ofCps n)), ("i", toJson (MC.Clean.hasIntent attrs)),
+      ("id", match MC.Xml.idOf attrs with | some i => toJson (ofCps i) | none => Json.null), ("c", Json.arr (kids.map shapeJ).toArray)]
 
 /-- clean-up skeleton (C01 / C02): `clean` = the model's `clean_mathml` on a whole `<math>` tree -/
 def handleClean (op : String) (req : Json) : Option Json :=
